@@ -40,6 +40,23 @@ fn run(sh: &mut Shard) {
     if !sh.running() {
         return;
     }
+    for depth in 1..=(if tier == Tier::Quick { 2 } else { 3 }) {
+        crate::compose::for_each(depth, &mut |_, prog| {
+            if !sh.mine() {
+                return sh.running();
+            }
+            sh.begin(&|| printer::program(prog));
+            sh.count("family:compose");
+            if let Some(st) = gcprog::check_full(sh, "C03", "compose", prog) {
+                if st.collections_with_live > 0 {
+                    sh.nontrivial(&printer::program(prog));
+                    sh.count("programs-collecting-with-live-heap");
+                    sh.count("traces_validated_against_impl");
+                }
+            }
+            sh.running()
+        });
+    }
     for sl in slices::slices() {
         if !PROGRAM_SLICES.contains(&sl.name) {
             continue;
